@@ -1,4 +1,6 @@
 import LoraVerif.Model.Mac
+import LoraVerif.Props.TieA.HandleRx
+import LoraVerif.Props.TieA.PrepareBuffer
 import LoraVerif.Gen.SessionStatic
 import LoraVerif.Props.TieA.Rx2Complete
 /-!
@@ -11,17 +13,9 @@ functions of the counter (`Gen/SessionStatic.lean`) and proved equal to the mode
 namespace C06
 open Model
 
-/-- counter exhaustion: both `fcnt_up == 0xFFFF_FFFF` tests of session.rs are the model's `== 0xFFFFFFFF` -/
-theorem tieA_fcntUpExhausted (n : Nat) :
-    Gen.SessionStatic.Session.rx2_complete.fcnt_up_exhausted n = (n == 0xFFFFFFFF) ∧
-    Gen.SessionStatic.Session.handle_rx.fcnt_up_exhausted n = (n == 0xFFFFFFFF) := by
-  constructor <;>
-    simp only [Gen.SessionStatic.Session.rx2_complete.fcnt_up_exhausted, Gen.SessionStatic.Session.handle_rx.fcnt_up_exhausted] <;>
-    rw [Bool.eq_iff_iff] <;> simp only [decide_eq_true_eq, beq_iff_eq] <;> omega
-
-example : Gen.SessionStatic.Session.rx2_complete.fcnt_up_exhausted 4294967295 = true := by decide
-
-#print axioms tieA_fcntUpExhausted
+/-! (builder N) The former `tieA_fcntUpExhausted` — the two `fcnt_up == 0xFFFF_FFFF` comparisons extracted as
+functions of the counter — is superseded by the whole-method theorems `tieA_rx2_complete` (builder L) and
+`C05/C07.tieA_handle_rx_accept` (builder N), which contain both tests. -/
 
 /-- builder L — the WHOLE method, not only its comparisons: the state-passing translation of the current
 source of `Session::rx2_complete` (`Gen/SessionFn.lean`; struct values in, `(Response, Session,
@@ -39,4 +33,51 @@ theorem tieA_rx2_complete (s0 : Session) (gs : Gen.SessionFn.Session) (g : Gen.S
 example : TieA.SessWF ⟨false, 7, none, 95⟩ := by simp only [TieA.SessWF]; omega
 
 #print axioms tieA_rx2_complete
+/-- builder N — `Session::prepare_buffer` (whole method, `Gen/SessionTx.lean`): the frame handed to the codec
+carries FCnt = the session's `fcnt_up`, and `prepare_buffer` does not advance the counter (the model's
+`prepareBuffer`, which `C06.send_uses_fcnt` is about); see `C12.tieA_prepare_buffer_header` for the other
+header fields.  Proved in `Props/TieA/PrepareBuffer.lean`. -/
+theorem tieA_prepare_buffer_header {β : Type} [Gen.SessionTx.TxBufOps β] (codec : Gen.SessionTx.FrameCodec)
+    (gs : Gen.SessionTx.Session) (d : Gen.SessionTx.SendData) (tx : β) (g : Gen.SessionTx.Configuration) (r : RegionId)
+    (hp : 0 ≤ d.fport)
+    (hret : ∀ p, TieA.Tx.natsOf (Gen.SessionTx.retained_pipeline p []) = retainSticky (p.length + 1) (TieA.Tx.natsOf p)) :
+    if d.fport = 0 ∧ d.data ≠ [] then
+      Gen.SessionTx.Session.prepare_buffer codec gs d tx g (TieA.Tx.regionOf r) = none ∧
+      prepareBuffer (TieA.Tx.sessOf gs) (TieA.Tx.cfgOf g) r (TieA.Tx.natsOf d.data) d.fport.toNat d.confirmed
+        = panic "Data payload with fport 0 not allowed"
+    else ∃ (f : Gen.SessionTx.DataFrame) (gs' : Gen.SessionTx.Session),
+      Gen.SessionTx.Session.prepare_buffer codec gs d tx g (TieA.Tx.regionOf r)
+        = (codec.build_into f (List.replicate 256 0) ⟨gs.nwkskey.inner⟩ (some ⟨gs.appskey.inner⟩)).bind (fun pkt =>
+            let o := Gen.SessionTx.TxBufOps.extend_from_slice (Gen.SessionTx.TxBufOps.clear (Gen.SessionTx.TxBufOps.clear tx)) pkt
+            o.1.map (fun _ => (gs.fcnt_up, gs', o.2)))
+      ∧ f.f_pending = false
+      ∧ f.frame_type = (if d.confirmed then .ConfirmedUp else .UnconfirmedUp)
+      ∧ prepareBuffer (TieA.Tx.sessOf gs) (TieA.Tx.cfgOf g) r (TieA.Tx.natsOf d.data) d.fport.toNat d.confirmed
+          = (if TieA.Tx.frameLen f > 256 then panic "Error assembling packet: BufferTooShort"
+             else if TieA.Tx.frameLen f ≥ 256 then panic "tx_buffer.extend_from_slice unwrap"
+             else .ok (TieA.Tx.descOf f, TieA.Tx.sessOf gs')) :=
+  TieA.Tx.tieA_prepare_buffer_header codec gs d tx g r hp hret
+
+#print axioms tieA_prepare_buffer_header
+/-- builder N — `Session::handle_rx` (whole method, `Gen/SessionRx.lean`) is the model's `sessionHandleRx`: an
+accepted downlink advances `fcnt_up` by exactly one unless it is `0xFFFF_FFFF`, in which case
+`SessionExpired` is reported and the counter stays; no other path of `handle_rx` touches it except the
+oversized-frame path through `rx2_complete` (`C06.handleRx_fcnt` is about that model function).  See
+`C05.tieA_handle_rx_accept`.  Proved in `Props/TieA/HandleRx.lean`. -/
+theorem tieA_handle_rx_accept [Gen.SessionRx.MacOps RegionState] (S : List Int → Prop)
+    (hnl : TieA.Rx.NextLowerOk) (hsim : TieA.Rx.MacsOk S)
+    (D : Int) (gs : Gen.SessionRx.Session) (rs : RegionState) (g : Gen.SessionRx.Configuration)
+    (rx : Gen.SessionRx.RadioBuffer) (dl : List Gen.SessionRx.Downlink) (maxp snr : Int) (ign : Bool)
+    (e : Gen.SessionRx.EncryptedDataPayload)
+    (hparse : rx.as_mut_for_read.parse = some e)
+    (hw : TieA.Rx.SessWF gs) (hmax : 0 ≤ maxp ∧ maxp ≤ 255) (hwire : 0 ≤ e.fhdr.fcnt)
+    (hdec : ∀ f, Gen.SessionRx.next_fcnt_down gs.fcnt_down e.fhdr.fcnt = some f → e.validate_mic (TieA.Rx.nwkOf gs) f = true →
+      ∃ d, rx.as_mut_for_read.decrypt_in_place (some (TieA.Rx.nwkOf gs)) (some (TieA.Rx.appOf gs)) f = some d ∧ TieA.Rx.DecWF S d) :
+    (Gen.SessionRx.Session.handle_rx D gs rs g rx dl maxp snr ign).bind
+        (fun out => (TieA.Rx.respOf out.1).map (fun r => (r, TieA.Rx.sessOf out.2.1, out.2.2.1, TieA.Rx.cfgOf out.2.2.2.1, out.2.2.2.2.2.map TieA.Rx.dlOf)))
+      = (sessionHandleRx (TieA.Rx.sessOf gs) (TieA.Rx.cfgOf g) rs (TieA.Rx.dataOf gs e (TieA.Rx.decOf gs rx e)) maxp.toNat snr ign).toOption.map (TieA.Rx.expect dl D) :=
+  TieA.Rx.tieA_handle_rx_accept S hnl hsim D gs rs g rx dl maxp snr ign e hparse hw hmax hwire hdec
+
+
+#print axioms tieA_handle_rx_accept
 end C06
